@@ -92,6 +92,8 @@ def apply(module, d):
                     arr[:] = [hi if i % 2 else lo for i in range(n)]
     elif k == "mcmap":
         module["payload"]["mappings"][d["i"]][0:3] = list(d["v"])
+    elif k == "mcmapx":
+        module["payload"]["mappings"][d["i"]][0:8] = list(d["v"])
     elif k == "mmud":
         n = d["c"]
         module["options"]["user_defined_controllers"] = n
